@@ -96,7 +96,7 @@ class C10(InputProp):
             "_uscan extension (rebuilt from the working tree); non-trivial/distinct = distinct token-type sequences")
     assumptions = ("alphabet: one lexeme per re2c rule / cursor adjustment; inputs longer than the bound are not covered",)
     chunk = 40000
-    soft_timeout = 10.0
+    soft_timeout = 20.0  # (CPU seconds of all threads: the free-running pass runs two threads for up to 4 s)
 
     def prepare(self, tier):
         from mwlib.parser.token import utoken
